@@ -341,6 +341,22 @@ def run(ctx):
                     "~" if ftv is None else enc_list([ftv] if isinstance(ftv, str) else ftv),
                     "1" if kw.get("completely_within") else "0"))
                 exp.append(got); tags.append(("region without restriction", repr(kw)))
+            # falsy arguments (outside the property's 1 <= start <= end and its strand values; correspondence only): an empty
+            # strand string is "no restriction" for make_query but a real comparison for region(); a zero coordinate is
+            # "not given" for region() and switches the bin clause off for limit=
+            e0 = r.choice([100, 1000, 131072, 2 ** 29])
+            for ws in ("", "+"):
+                for within in (False, True):
+                    got = sorted(f.id for f in db.all_features(limit=("chr1", 0, e0), strand=ws, completely_within=within))
+                    cmds.append("q " + dbside.cmd_query(strand=ws, limit=("chr1", 0, e0), within=within))
+                    exp.append("SET " + enc_list(got)); tags.append(("all_features(limit start=0, strand=%r)" % ws, repr(e0)))
+                    try:
+                        got = "SET " + enc_list(sorted(f.id for f in db.region(seqid="chr1", start=0, end=e0, strand=ws,
+                                                                             completely_within=within)))
+                    except Exception as ex:
+                        got = "err " + dbside.err_name(ex)
+                    cmds.append("region %s 0 %d %s ~ %s" % (enc("chr1"), e0, enc(ws), "1" if within else "0"))
+                    exp.append(got); tags.append(("region(start=0, strand=%r)" % ws, repr(e0)))
     out = ctx.model(cmds)
     if out is not None:
         for c, m, e, (comp, inp) in zip(cmds, out, exp, tags):
